@@ -130,11 +130,15 @@ prop("C03", [
 
 prop("C04", [
     dict(engine="verus", unit="dnsser"),
-    dict(engine="verus", unit="dnsreply", fns=["DnsListenerHandler::prepare_to_send", "run_udp_reply", "run_tcp_reply"]),
-    dict(engine="verus", unit="dnsparse", fns=["PktParser::get_dns", "PktParser::get_domain", "PktParser::get_domain_into"]),
+    dict(engine="verus", unit="dnsreply", fns=["DnsListenerHandler::prepare_to_send", "run_udp_reply", "run_tcp_reply", "DnsListenerHandler::recv_in_query",
+                                               "DnsListenerHandler::create_in_error", "DnsListenerHandler::create_in_reply", "DnsListenerHandler::build_dns_message"]),
+    dict(engine="verus", unit="acl", fns=["DnsAclHandler::handle_query"]),
+    dict(engine="verus", unit="dnsparse", fns=["PktParser::get_dns", "PktParser::get_domain", "PktParser::get_domain_into", "PktParser::get_rr", "PktParser::get_rdata"]),
 ], explanation="size-limited serialiser contract (length <= limit for every message the decoder can produce: names <= 255 octets); per-transport limit and TCP framing as emission-point preconditions; advertised size floor 512 in the decoder",
     assumptions=["push_compressed_domain (LinkedList dictionary, outside Verus) appends at least one and at most labels+1 octets: assumed contract, checked bounded by the Kani set dns_compress (exact output lengths asserted)",
-                 "the reply handed to the serialiser is pkt_wf (recv_in_query stub): replies are built from decoded queries and decoded upstream replies, whose names the decoder now bounds; locally configured names are not covered"])
+                 "what the handler chain behind the listener returns is a decoded message or one of the client-facing errors (chain_ok, stub of DnsAclHandler::handle_query in unit dnsreply): "
+                 "proved for the decoder (any message of <= 65536 octets decodes to one the encoder accepts: names <= 255 octets, >= 11 octets per record so the 16-bit counts fit), "
+                 "for the listener (recv_in_query, create_in_reply, create_in_error: proved) and as pass-through for the ACL layer; the router / cache / upstream layers in between are NOT yet chained (their units prove their own clauses)"])
 
 prop("C05", [
     dict(engine="verus", unit="dnsparse"),
@@ -147,8 +151,12 @@ prop("C05", [
     # cache invariant, which rests on get_expiry == min TTL, checked bounded by Kani)
     dict(engine="verus", unit="cache", fns=["CacheHandler::get_entry", "CacheHandler::insert_cache_entry", "CacheHandler::calculate_expiry", "CacheHandler::handle_query", "clone_with_ttl_decrement_out_reply", "clone_out_reply"]),
     dict(engine="verus", unit="dnsttl"),
+    # the listener around the decoders: the four unreachable!() arms of create_in_error, the unwraps of the reply paths
+    dict(engine="verus", unit="dnsreply", fns=["DnsListenerHandler::recv_in_query", "DnsListenerHandler::create_in_error", "DnsListenerHandler::create_in_reply",
+                                               "DnsListenerHandler::build_dns_message", "run_udp_reply", "run_tcp_reply"]),
+    dict(engine="verus", unit="outq", fns=["TcpNameserver::send_tcp_query", "TcpNameserver::send_tcp_reply", "create_outquery"]),
     dict(engine="kani", sets=["net_subnet", "dns_ttl"]),
-], explanation="no-panic / no-overflow / in-bounds / termination of the network-facing decoders for all byte strings of all lengths",
+], explanation="no-panic / no-overflow / in-bounds / termination of the network-facing decoders and of the handlers around them, for all byte strings of all lengths",
     assumptions=["async handlers are verified as a single task; process-level liveness ('still answers the next request') is not decided, only its in-process cause (a panic)"])
 
 prop("C06", [
